@@ -65,6 +65,9 @@ func (i valImpl) Exec(e absx.M) (bool, absx.M, string) {
 func (i valImpl) Project() absx.M { return i.ch.ProjectVal() }
 
 func newValImpl(seed int64, scale string, meta absx.M) walk.Impl {
+	if absx.Bool(meta["driver"]) {
+		meta = l2.DriveValMeta()
+	}
 	conc := l1.NewConc(seed, parseScale(scale))
 	ch := l2.NewChain(conc, l2Cfg(meta))
 	var ops, keys []string
@@ -105,6 +108,9 @@ func newOracleImpl(seed int64, scale string, meta absx.M) walk.Impl {
 }
 
 func l2Cfg(meta absx.M) l2.RunCfg {
+	if absx.Bool(meta["driver"]) {
+		return l2.DriveCfg()
+	}
 	strs := func(v any) []string {
 		var out []string
 		for _, x := range absx.List(v) {
@@ -232,6 +238,34 @@ func main() {
 			os.Exit(2)
 		}
 		st, err := l1.Drive(fh, *seed, *paths, *maxLen)
+		fh.Close()
+		if err != nil {
+			fmt.Fprintln(os.Stderr, err)
+			os.Exit(2)
+		}
+		bz, _ := json.Marshal(st)
+		fmt.Println(string(bz))
+	case "val-drive":
+		fh, err := os.Create(*out)
+		if err != nil {
+			fmt.Fprintln(os.Stderr, err)
+			os.Exit(2)
+		}
+		st, err := l2.DriveVal(fh, *seed, *paths, *maxLen)
+		fh.Close()
+		if err != nil {
+			fmt.Fprintln(os.Stderr, err)
+			os.Exit(2)
+		}
+		bz, _ := json.Marshal(st)
+		fmt.Println(string(bz))
+	case "l2-drive":
+		fh, err := os.Create(*out)
+		if err != nil {
+			fmt.Fprintln(os.Stderr, err)
+			os.Exit(2)
+		}
+		st, err := l2.Drive(fh, *seed, *paths, *maxLen)
 		fh.Close()
 		if err != nil {
 			fmt.Fprintln(os.Stderr, err)
